@@ -22,7 +22,7 @@ Proof. destruct r; cbn [post]; intros [H1 H2]; congruence || exact I. Qed.
 
 Lemma post_bind {A B} (r : res A) (f : A -> res B) (P : A -> Prop) (Q : B -> Prop) :
   post r P -> (forall a, P a -> post (f a) Q) -> post (bind r f) Q.
-Proof. destruct r; cbn [post]; intros H HF; auto. Qed.
+Proof. destruct r; cbn [post bind]; intros H HF; auto. Qed.
 
 Lemma post_mono {A} (r : res A) (P Q : A -> Prop) : post r P -> (forall a, P a -> Q a) -> post r Q.
 Proof. destruct r; cbn [post]; auto. Qed.
@@ -40,7 +40,7 @@ Proof.
 Qed.
 
 Lemma post_rd_byte b i : bytes_ok b -> 0 <= i < bsize b -> post (rd b i) (fun v => 0 <= v < 256).
-Proof. intros HB H. eapply post_mono; [apply post_rd; exact H|]. intros a ->. apply HB. Qed.
+Proof. intros HB H. eapply post_mono; [apply post_rd; exact H|]; cbv beta. intros a ->. apply HB. Qed.
 
 Lemma post_idx cap i : 0 <= i < cap -> post (idx_ok cap i) (fun _ => True).
 Proof. intros H. unfold idx_ok. destruct ((0 <=? i) && (i <? cap)) eqn:E; cbn [post]; [exact I | lia]. Qed.
@@ -48,26 +48,26 @@ Proof. intros H. unfold idx_ok. destruct ((0 <=? i) && (i <? cap)) eqn:E; cbn [p
 Lemma post_be16 b p : bytes_ok b -> 0 <= p -> p + 1 < bsize b -> post (be16 b p) (fun v => 0 <= v < 65536).
 Proof.
   intros HB H0 H1. unfold be16.
-  eapply post_bind; [apply post_rd_byte; [exact HB | lia]|]. intros x Hx.
-  eapply post_bind; [apply post_rd_byte; [exact HB | lia]|]. intros y Hy.
+  eapply post_bind; [apply post_rd_byte; [exact HB | lia]|]; cbv beta. intros x Hx.
+  eapply post_bind; [apply post_rd_byte; [exact HB | lia]|]; cbv beta. intros y Hy.
   cbn [post]. lia.
 Qed.
 
 Lemma post_be32 b p : bytes_ok b -> 0 <= p -> p + 3 < bsize b -> post (be32 b p) (fun v => 0 <= v < 4294967296).
 Proof.
   intros HB H0 H1. unfold be32.
-  eapply post_bind; [apply post_rd_byte; [exact HB | lia]|]. intros x Hx.
-  eapply post_bind; [apply post_rd_byte; [exact HB | lia]|]. intros y Hy.
-  eapply post_bind; [apply post_rd_byte; [exact HB | lia]|]. intros z Hz.
-  eapply post_bind; [apply post_rd_byte; [exact HB | lia]|]. intros w Hw.
+  eapply post_bind; [apply post_rd_byte; [exact HB | lia]|]; cbv beta. intros x Hx.
+  eapply post_bind; [apply post_rd_byte; [exact HB | lia]|]; cbv beta. intros y Hy.
+  eapply post_bind; [apply post_rd_byte; [exact HB | lia]|]; cbv beta. intros z Hz.
+  eapply post_bind; [apply post_rd_byte; [exact HB | lia]|]; cbv beta. intros w Hw.
   cbn [post]. lia.
 Qed.
 
 Lemma post_rd_range b p n : 0 <= p -> p + n <= bsize b -> post (rd_range b p n) (fun _ => True).
 Proof.
   intros H0 H1. unfold rd_range. destruct (n <=? 0) eqn:E; [exact I|].
-  eapply post_bind; [apply post_rd; lia|]. intros x _.
-  eapply post_bind; [apply post_rd; lia|]. intros y _. exact I.
+  eapply post_bind; [apply post_rd; lia|]; cbv beta. intros x _.
+  eapply post_bind; [apply post_rd; lia|]; cbv beta. intros y _. exact I.
 Qed.
 
 Lemma post_rd_bytes b n : forall p, 0 <= p -> p + Z.of_nat n <= bsize b ->
@@ -75,8 +75,8 @@ Lemma post_rd_bytes b n : forall p, 0 <= p -> p + Z.of_nat n <= bsize b ->
 Proof.
   induction n as [|n IH]; intros p H0 H1; cbn [rd_bytes].
   - reflexivity.
-  - eapply post_bind; [apply post_rd; lia|]. intros x _.
-    eapply post_bind; [apply IH; lia|]. intros r Hr. cbn [post lenZ]. lia.
+  - eapply post_bind; [apply post_rd; lia|]; cbv beta. intros x _.
+    eapply post_bind; [apply IH; lia|]; cbv beta. intros r Hr. cbn [post lenZ]. lia.
 Qed.
 
 Lemma post_int_bytes b n : forall p v, 0 <= p -> p + Z.of_nat n <= bsize b ->
@@ -84,7 +84,7 @@ Lemma post_int_bytes b n : forall p v, 0 <= p -> p + Z.of_nat n <= bsize b ->
 Proof.
   induction n as [|n IH]; intros p v H0 H1; cbn [int_bytes].
   - exact I.
-  - eapply post_bind; [apply post_rd; lia|]. intros x _. apply IH; lia.
+  - eapply post_bind; [apply post_rd; lia|]; cbv beta. intros x _. apply IH; lia.
 Qed.
 
 (* strlen stays inside the object when a NUL lies ahead *)
@@ -94,11 +94,11 @@ Lemma post_cstrlen_from b fuel : forall p acc q,
 Proof.
   induction fuel as [|f IH]; intros p acc q H0 Hq Hz Hf; cbn [cstrlen_from].
   - lia.
-  - eapply post_bind; [apply post_rd; lia|]. intros x ->.
+  - eapply post_bind; [apply post_rd; lia|]; cbv beta. intros x ->.
     destruct (bget b p =? 0) eqn:E.
     + cbn [post]. lia.
     + assert (p <> q) by (intros ->; lia).
-      eapply post_mono; [apply (IH (p + 1) (acc + 1) q); lia|].
+      eapply post_mono; [apply (IH (p + 1) (acc + 1) q); lia|]; cbv beta.
       intros n Hn. cbn beta iota in Hn. lia.
 Qed.
 
@@ -106,7 +106,7 @@ Lemma post_cstrlen b p q : 0 <= p -> p <= q < bsize b -> bget b q = 0 ->
   post (cstrlen b p) (fun n => 0 <= n /\ p + n <= q).
 Proof.
   intros H0 Hq Hz. unfold cstrlen.
-  eapply post_mono; [apply (post_cstrlen_from b _ p 0 q); try assumption; lia|].
+  eapply post_mono; [apply (post_cstrlen_from b _ p 0 q); try assumption; lia|]; cbv beta.
   intros n Hn. cbn beta iota in Hn. lia.
 Qed.
 
@@ -123,13 +123,31 @@ Proof.
   pose proof (Z.mod_pos_bound (Z.land x 127) 128). lia.
 Qed.
 
+Lemma post_rd_be b n : forall p acc, bytes_ok b -> 0 <= p -> p + Z.of_nat n <= bsize b -> 0 <= acc ->
+  post (rd_be b p n acc) (fun v => 0 <= v < (acc + 1) * 256 ^ Z.of_nat n).
+Proof.
+  induction n as [|n IH]; intros p acc HB H0 H1 Ha; cbn [rd_be].
+  - cbn [post]. change (256 ^ Z.of_nat 0) with 1. lia.
+  - eapply post_bind; [apply post_rd_byte; [exact HB | lia]|]; cbv beta. intros x Hx.
+    eapply post_mono; [apply IH; try assumption; lia|]; cbv beta. intros v Hv.
+    assert (Hp : 256 ^ Z.of_nat (S n) = 256 * 256 ^ Z.of_nat n)
+      by (rewrite Nat2Z.inj_succ, Z.pow_succ_r by lia; reflexivity).
+    assert (Hq : 0 < 256 ^ Z.of_nat n) by (apply Z.pow_pos_nonneg; lia).
+    rewrite Hp. nia.
+Qed.
+
+Lemma pow256_le n : (n <= 4)%nat -> 256 ^ Z.of_nat n <= 4294967296.
+Proof.
+  intros H. do 5 (destruct n as [|n]; [vm_compute; congruence|]). lia.
+Qed.
+
 (* cursor after the length field is at most 5 bytes on; the length is a u_int *)
 Lemma post_asn_parse_length b p :
   bytes_ok b -> 0 <= p -> p + 5 <= bsize b ->
   post (asn_parse_length b p) (fun '(p', alen) => p < p' <= p + 5 /\ 0 <= alen < 4294967296).
 Proof.
   intros HB H0 H1. unfold asn_parse_length.
-  eapply post_bind; [apply post_rd_byte; [exact HB | lia]|]. intros lb Hlb.
+  eapply post_bind; [apply post_rd_byte; [exact HB | lia]|]; cbv beta. intros lb Hlb.
   destruct (negb (Z.land lb asn_long_len =? 0)) eqn:E1; [|cbn [post]; lia].
   change (255 - asn_long_len) with 127.
   pose proof (land_127 lb) as Hn.
@@ -137,22 +155,10 @@ Proof.
   change sizeof_int with 4.
   destruct (4 <? Z.land lb 127) eqn:E3; [exact I|].
   set (n := Z.land lb 127) in *.
-  assert (Hc : n = 1 \/ n = 2 \/ n = 3 \/ n = 4) by lia.
-  destruct Hc as [-> | [-> | [-> | ->]]].
-  - change (Z.to_nat 1) with 1%nat. cbn [rd_be].
-    eapply post_bind; [apply post_rd_byte; [exact HB | lia]|]. intros x1 Hx1. cbn [post]. lia.
-  - change (Z.to_nat 2) with 2%nat. cbn [rd_be].
-    eapply post_bind; [apply post_rd_byte; [exact HB | lia]|]. intros x1 Hx1.
-    eapply post_bind; [apply post_rd_byte; [exact HB | lia]|]. intros x2 Hx2. cbn [post]. lia.
-  - change (Z.to_nat 3) with 3%nat. cbn [rd_be].
-    eapply post_bind; [apply post_rd_byte; [exact HB | lia]|]. intros x1 Hx1.
-    eapply post_bind; [apply post_rd_byte; [exact HB | lia]|]. intros x2 Hx2.
-    eapply post_bind; [apply post_rd_byte; [exact HB | lia]|]. intros x3 Hx3. cbn [post]. lia.
-  - change (Z.to_nat 4) with 4%nat. cbn [rd_be].
-    eapply post_bind; [apply post_rd_byte; [exact HB | lia]|]. intros x1 Hx1.
-    eapply post_bind; [apply post_rd_byte; [exact HB | lia]|]. intros x2 Hx2.
-    eapply post_bind; [apply post_rd_byte; [exact HB | lia]|]. intros x3 Hx3.
-    eapply post_bind; [apply post_rd_byte; [exact HB | lia]|]. intros x4 Hx4. cbn [post]. lia.
+  eapply post_bind; [apply post_rd_be; [exact HB | lia | rewrite Z2Nat.id by lia; lia | lia]|]; cbv beta.
+  intros v Hv. cbn [post].
+  assert (Hle : 256 ^ Z.of_nat (Z.to_nat n) <= 4294967296) by (apply pow256_le; lia).
+  lia.
 Qed.
 
 (* The invariant of all readers: cursor [p], remaining length [dl], inside the received [len] bytes of an object
@@ -168,9 +174,9 @@ Lemma post_asn_parse_header b len p dl :
   post (asn_parse_header b p dl) (fun '(p', dl', t) => inv b len p' dl' /\ p < p' /\ p' + dl' <= p + dl).
 Proof.
   intros HB (H0 & H1 & H2 & H3 & H4). unfold asn_parse_header.
-  eapply post_bind; [apply post_rd; lia|]. intros t _.
+  eapply post_bind; [apply post_rd; lia|]; cbv beta. intros t _.
   destruct (Z.land t asn_extension_id =? asn_extension_id); [exact I|].
-  eapply post_bind; [apply post_asn_parse_length; [exact HB | lia | lia]|].
+  eapply post_bind; [apply post_asn_parse_length; [exact HB | lia | lia]|]; cbv beta.
   intros [p' alen] [Hp Ha].
   change asn_max_len with 524288.
   destruct ((u32 dl <? u32 (p' - p + alen)) || (524288 <? alen)) eqn:E; [exact I|].
@@ -185,14 +191,14 @@ Lemma post_asn_parse_int b len p dl :
   post (asn_parse_int b p dl) (fun '(p', dl', t, v) => inv b len p' dl' /\ p < p' /\ p' + dl' <= p + dl).
 Proof.
   intros HB (H0 & H1 & H2 & H3 & H4). unfold asn_parse_int.
-  eapply post_bind; [apply post_rd; lia|]. intros t _.
-  eapply post_bind; [apply post_asn_parse_length; [exact HB | lia | lia]|].
+  eapply post_bind; [apply post_rd; lia|]; cbv beta. intros t _.
+  eapply post_bind; [apply post_asn_parse_length; [exact HB | lia | lia]|]; cbv beta.
   intros [p' alen] [Hp Ha].
   destruct (dl <? alen + (p' - p)) eqn:E1; [exact I|].
   change sizeof_int with 4.
   destruct (4 <? alen) eqn:E2; [exact I|].
-  eapply post_bind; [apply post_rd; lia|]. intros b0 _.
-  eapply post_bind; [apply post_int_bytes; lia|]. intros v _.
+  eapply post_bind; [apply post_rd; lia|]; cbv beta. intros b0 _.
+  eapply post_bind; [apply post_int_bytes; lia|]; cbv beta. intros v _.
   cbn [post]. unfold inv. lia.
 Qed.
 
@@ -201,18 +207,18 @@ Lemma post_asn_parse_unsigned_int b len p dl :
   post (asn_parse_unsigned_int b p dl) (fun '(p', dl', t, v) => inv b len p' dl' /\ p < p' /\ p' + dl' <= p + dl).
 Proof.
   intros HB (H0 & H1 & H2 & H3 & H4). unfold asn_parse_unsigned_int.
-  eapply post_bind; [apply post_rd; lia|]. intros t _.
-  eapply post_bind; [apply post_asn_parse_length; [exact HB | lia | lia]|].
+  eapply post_bind; [apply post_rd; lia|]; cbv beta. intros t _.
+  eapply post_bind; [apply post_asn_parse_length; [exact HB | lia | lia]|]; cbv beta.
   intros [p' alen] [Hp Ha].
   destruct (dl <? alen + (p' - p)) eqn:E1; [exact I|].
   change sizeof_int with 4.
   destruct (4 + 1 <? alen) eqn:E2; [exact I|].
   eapply (post_bind _ _ (fun _ => True)).
   { destruct (alen =? 4 + 1); [|exact I].
-    eapply post_bind; [apply post_rd; lia|]. intros x _. exact I. }
+    eapply post_bind; [apply post_rd; lia|]; cbv beta. intros x _. exact I. }
   intros bad _. destruct bad; [exact I|].
-  eapply post_bind; [apply post_rd; lia|]. intros b0 _.
-  eapply post_bind; [apply post_int_bytes; lia|]. intros v _.
+  eapply post_bind; [apply post_rd; lia|]; cbv beta. intros b0 _.
+  eapply post_bind; [apply post_int_bytes; lia|]; cbv beta. intros v _.
   cbn [post]. unfold inv. lia.
 Qed.
 
@@ -223,19 +229,19 @@ Lemma post_asn_parse_string keep b len p dl cap dcap :
                                     (keep = true -> lenZ s = n)).
 Proof.
   intros HB (H0 & H1 & H2 & H3 & H4) Hc Hc2. unfold asn_parse_string.
-  eapply post_bind; [apply post_rd; lia|]. intros t _.
-  eapply post_bind; [apply post_asn_parse_length; [exact HB | lia | lia]|].
+  eapply post_bind; [apply post_rd; lia|]; cbv beta. intros t _.
+  eapply post_bind; [apply post_asn_parse_length; [exact HB | lia | lia]|]; cbv beta.
   intros [p' alen] [Hp Ha].
   destruct (dl <? alen + (p' - p)) eqn:E1; [exact I|].
   rewrite (u32_small cap) by lia.
   destruct (cap <? alen) eqn:E2; [exact I|].
   eapply (post_bind _ _ (fun _ => True)).
-  { destruct (alen =? 0); [exact I|]. apply post_idx. lia. }
+  { destruct (alen =? 0) eqn:E3; [exact I|]. apply post_idx. lia. }
   intros _ _.
-  eapply post_bind; [apply post_rd_range; lia|]. intros _ _.
+  eapply post_bind; [apply post_rd_range; lia|]; cbv beta. intros _ _.
   eapply (post_bind _ _ (fun s => keep = true -> lenZ s = alen)).
-  { destruct keep; [|cbn [post]; congruence].
-    eapply post_mono; [apply post_rd_bytes; lia|]. intros l Hl _. rewrite Hl. lia. }
+  { destruct keep; [|cbn [post]; discriminate].
+    eapply post_mono; [apply post_rd_bytes; lia|]; cbv beta. intros l Hl _. rewrite Hl. lia. }
   intros s Hs. cbn [post]. unfold inv. lia.
 Qed.
 
@@ -248,9 +254,9 @@ Proof.
   induction fuel as [|f IH]; intros p length sub HB H0 H1 H2 Hf; cbn [objid_sub].
   - destruct (length <=? 0) eqn:E; lia.
   - destruct (length <=? 0) eqn:E; [exact I|].
-    eapply post_bind; [apply post_rd; lia|]. intros x _.
+    eapply post_bind; [apply post_rd; lia|]; cbv beta. intros x _.
     destruct (negb (Z.land x asn_bit8 =? 0)).
-    + eapply post_mono; [apply IH; try assumption; lia|].
+    + eapply post_mono; [apply IH; try assumption; lia|]; cbv beta.
       intros [[p' l'] s'] Hq. lia.
     + cbn [post]. lia.
 Qed.
@@ -265,11 +271,11 @@ Proof.
   - lia.
   - destruct (0 <? length) eqn:E1; [|cbn [post]; lia].
     destruct (0 <? objlen) eqn:E2; [|cbn [post]; lia].
-    eapply post_bind; [apply (post_objid_sub b len); try assumption; lia|].
+    eapply post_bind; [apply (post_objid_sub b len); try assumption; lia|]; cbv beta.
     intros [[p' l'] s'] (Hq1 & Hq2 & Hq3).
     destruct (max_subid <? s'); [exact I|].
-    eapply post_bind; [apply post_idx; lia|]. intros _ _.
-    eapply post_mono; [apply IH; try assumption; lia|].
+    eapply post_bind; [apply post_idx; lia|]; cbv beta. intros _ _.
+    eapply post_mono; [apply IH; try assumption; lia|]; cbv beta.
     intros [[pe n] acc'] Hq. lia.
 Qed.
 
@@ -279,17 +285,17 @@ Lemma post_asn_parse_objid b len p dl objlen ocap :
        (fun '(p', dl', t, ids, n) => inv b len p' dl' /\ p < p' /\ p' + dl' <= p + dl /\ 1 <= n <= ocap).
 Proof.
   intros HB (H0 & H1 & H2 & H3 & H4) Hc Ho. unfold asn_parse_objid.
-  eapply post_bind; [apply post_rd; lia|]. intros t _.
-  eapply post_bind; [apply post_asn_parse_length; [exact HB | lia | lia]|].
+  eapply post_bind; [apply post_rd; lia|]; cbv beta. intros t _.
+  eapply post_bind; [apply post_asn_parse_length; [exact HB | lia | lia]|]; cbv beta.
   intros [p' alen] [Hp Ha].
   destruct (dl <? alen + (p' - p)) eqn:E1; [exact I|].
   eapply (post_bind _ _ (fun _ => True)).
   { destruct (alen =? 0); [|exact I].
-    eapply post_bind; [apply post_idx; lia|]. intros _ _. apply post_idx; lia. }
+    eapply post_bind; [apply post_idx; lia|]; cbv beta. intros _ _. apply post_idx; lia. }
   intros _ _.
-  eapply post_bind; [apply (post_objid_loop b len ocap); try assumption; lia|].
+  eapply post_bind; [apply (post_objid_loop b len ocap); try assumption; lia|]; cbv beta.
   intros [[pe n] acc] (Hq1 & Hq2).
-  eapply post_bind; [apply post_idx; lia|]. intros _ _.
-  eapply post_bind; [apply post_idx; lia|]. intros _ _.
+  eapply post_bind; [apply post_idx; lia|]; cbv beta. intros _ _.
+  eapply post_bind; [apply post_idx; lia|]; cbv beta. intros _ _.
   destruct (match rev acc with [] => 0 | x :: _ => x end =? 43); cbn [post]; unfold inv; lia.
 Qed.
